@@ -10,6 +10,7 @@ import (
 
 	"github.com/trustbloc/sidetree-go/pkg/commitment"
 	"github.com/trustbloc/sidetree-go/pkg/jws"
+	"github.com/trustbloc/sidetree-go/pkg/versions/1_0/operationparser"
 	"pgregory.net/rapid"
 )
 
@@ -94,12 +95,25 @@ func TestC04_Algebra(t *testing.T) {
 
 var _ jws.JWK
 
+type rejectingOriginValidator struct{}
+
+func (rejectingOriginValidator) Validate(interface{}) error { return fmt.Errorf("anchor origin not accepted here") }
+
 func TestC04_Chain(t *testing.T) {
 	st := statsFor("C04")
 	check(t, "C04", 600, func(t *rapid.T) {
 		p := wideProtocol()
 		p.MultihashAlgorithms = rapid.SampledFrom([][]uint{{18, 19}, {19, 18}, {18}, {19}}).Draw(t, "algs")
 		stack := newStack(p)
+		// chain look-ups work on anchored operations: they must not depend on submission-time checks (time / origin
+		// validators, enabled patch actions, delta size). The linking parser below refuses every non-batch request.
+		linkCfg := p
+		if rapid.Bool().Draw(t, "strictLinkingParser") {
+			linkCfg.Patches = nil
+			linkCfg.MaxDeltaSize = 1
+		}
+		linker := newStack(linkCfg, operationparser.WithAnchorTimeValidator(&recordingTimeValidator{err: operationparser.ErrOperationExpired}),
+			operationparser.WithAnchorOriginValidator(rejectingOriginValidator{}))
 		alg := func(l string) uint { return rapid.SampledFrom(p.MultihashAlgorithms).Draw(t, l) }
 		key := func(l string) *Key { return genNoncedKey(t, p, l) }
 
@@ -112,13 +126,13 @@ func TestC04_Chain(t *testing.T) {
 		patches := []interface{}{map[string]interface{}{"action": "add-also-known-as", "uris": []interface{}{"https://chain.example/"}}}
 		cr := newCreate(a0, rec, upd, patches, nil, "")
 		suffix := cr.suffixFor(p.MultihashAlgorithms[0])
-		if _, err := stack.Parser.GetRevealValue(cr.bytes()); err == nil {
+		if _, err := linker.Parser.GetRevealValue(cr.bytes()); err == nil {
 			t.Fatalf("C04 GetRevealValue(create) must fail (a create reveals nothing)")
 		}
-		if _, err := stack.Parser.GetCommitment(cr.bytes()); err == nil {
+		if _, err := linker.Parser.GetCommitment(cr.bytes()); err == nil {
 			t.Fatalf("C04 GetCommitment(create) must fail (not part of a chain lookup)")
 		}
-		parsedCreate, err := stack.Parser.ParseCreateOperation(cr.bytes(), true)
+		parsedCreate, err := linker.Parser.ParseCreateOperation(cr.bytes(), true)
 		if err != nil {
 			t.Fatalf("C04 harness: create refused: %v", err)
 		}
@@ -146,7 +160,8 @@ func TestC04_Chain(t *testing.T) {
 				if next.Commitment(a) == upd.Commitment(a) {
 					next = otherKey(t, upd)
 				}
-				b = newUpdate(a, suffix, upd, next, patches, 0, 0)
+				wf, wu := clampWindow(genWindow(t, 5))
+				b = newUpdate(a, suffix, upd, next, patches, wf, wu)
 				b.Reveal = upd.Reveal(updAlg) // the reveal value answers the commitment: same algorithm as that commitment
 				b.assemble()
 			case "recover":
@@ -157,11 +172,13 @@ func TestC04_Chain(t *testing.T) {
 				if nu.Commitment(a) == nr.Commitment(a) {
 					nu = otherKey(t, nr)
 				}
-				b = newRecover(a, suffix, rec, nr, nu, patches, nil, 0, 0)
+				wf, wu := clampWindow(genWindow(t, 5))
+				b = newRecover(a, suffix, rec, nr, nu, patches, genOrigin(t), wf, wu)
 				b.Reveal = rec.Reveal(recAlg)
 				b.assemble()
 			default:
-				b = newDeactivate(a, suffix, rec, 0, 0)
+				wf, wu := clampWindow(genWindow(t, 5))
+				b = newDeactivate(a, suffix, rec, wf, wu)
 				b.Reveal = rec.Reveal(recAlg)
 				b.assemble()
 			}
@@ -169,7 +186,7 @@ func TestC04_Chain(t *testing.T) {
 			if _, err := stack.Parser.Parse("did:sidetree", raw); err != nil {
 				t.Fatalf("C04 harness: chain %s refused: %v\n%s", kind, err, raw)
 			}
-			rv, err := stack.Parser.GetRevealValue(raw)
+			rv, err := linker.Parser.GetRevealValue(raw)
 			if err != nil {
 				t.Fatalf("C04 GetRevealValue(%s): %v", kind, err)
 			}
@@ -187,7 +204,7 @@ func TestC04_Chain(t *testing.T) {
 			if derived != want {
 				t.Fatalf("C04 chain link broken at step %d (%s after %v): reveal value maps to %q, predecessor committed to %q", s, kind, kinds, derived, want)
 			}
-			next, err := stack.Parser.GetCommitment(raw)
+			next, err := linker.Parser.GetCommitment(raw)
 			if err != nil {
 				t.Fatalf("C04 GetCommitment(%s): %v", kind, err)
 			}
@@ -204,7 +221,7 @@ func TestC04_Chain(t *testing.T) {
 				if next != b.NextRecov.Commitment(a) {
 					t.Fatalf("C04 GetCommitment(recover) = %q, next recovery commitment is %q", next, b.NextRecov.Commitment(a))
 				}
-				parsed, err := stack.Parser.ParseRecoverOperation(raw, true)
+				parsed, err := linker.Parser.ParseRecoverOperation(raw, true)
 				if err != nil || parsed.Delta.UpdateCommitment != b.NextUpdate.Commitment(a) {
 					t.Fatalf("C04 parsed recover reports update commitment %v (%v)", parsed, err)
 				}
